@@ -1346,8 +1346,22 @@ pub fn read_memory_by_pid(pid: Pid, addr: usize, read_n: usize) -> Result<Vec<u8
 
     let mut addr = addr as *mut c_long;
     while read_reminder > 0 {
-        let value = sys::ptrace::read(pid, addr as *mut c_void)?;
-        result.extend(value.to_ne_bytes().into_iter().take(read_reminder as usize));
+        let want = (read_reminder as usize).min(single_read_size);
+        match sys::ptrace::read(pid, addr as *mut c_void) {
+            Ok(value) => result.extend(value.to_ne_bytes().into_iter().take(want)),
+            // a whole word read at the tail of the requested range may run past the end
+            // of the mapping while the requested bytes are readable, take them from
+            // the word that ends where the range ends
+            Err(e) if want < single_read_size => {
+                let word_addr = (addr as usize + want)
+                    .checked_sub(single_read_size)
+                    .ok_or(e)?;
+                let value = sys::ptrace::read(pid, word_addr as *mut c_void)?;
+                let skip = single_read_size - want;
+                result.extend(value.to_ne_bytes().into_iter().skip(skip));
+            }
+            Err(e) => return Err(e),
+        }
 
         read_reminder -= single_read_size as isize;
         addr = unsafe { addr.offset(1) };
